@@ -1,13 +1,16 @@
 package main
 
 import (
+	"bufio"
 	"bytes"
 	"fmt"
+	"io"
 	"math/rand"
 	"sort"
 
 	"filippo.io/age/internal/format"
 	"filippo.io/age/zverif/mon"
+	"filippo.io/age/zverif/refage"
 )
 
 // Part (iii): generated well-formed headers -> Marshal -> Parse equality.
@@ -260,6 +263,249 @@ func runGenerated(o *oracle, nRandom int) {
 			for c := 0; c < per && j*per+c < nRandom; c++ {
 				h := genHeader(rng)
 				o.checkGenerated(st, h, tails[rng.Intn(len(tails))])
+			}
+			st.merge(r)
+		})
+	})
+}
+
+// ---------------------------------------------------------------------------
+// Part (iii-b): well-formed headers whose stanza opening line ("-> type
+// args...\n") is as long as, or longer than, the buffer of the bufio.Reader
+// Parse works on: 4096 by default, the caller's size when the caller hands in a
+// larger bufio.Reader. The line length sweeps every value in 4096+-64, 8192+-8
+// and 65536+-8, plus 100 000 and 1 000 000; the long line is made of one long
+// argument, of many short arguments, or of a long type word; it is the first,
+// middle or last of three stanzas and is followed by a body of 0, 48 or 100
+// bytes.
+//
+// refage.ParseHeader is quadratic in the argument length, so the reference is
+// used here through its encoder: refage's Header.Encode of the same model is a
+// well-formed header by construction and must be accepted (and Marshal's output
+// is compared with it; a difference is counted, not alarmed on: byte-exactness
+// of the writer is C05).
+
+var longReaders []rdr
+
+func initLongReaders() {
+	pick := map[string]bool{"plain": true, "bufio-fresh": true, "bufio16": true, "bufio4097": true, "bufio8192": true, "bufio65536": true, "1byte": true}
+	for _, rd := range readers {
+		if pick[rd.name] && rd.mk != nil {
+			longReaders = append(longReaders, rd)
+		}
+	}
+	// an explicit 4096-byte bufio.Reader (what bufio.NewReader makes, spelled out)
+	longReaders = append(longReaders, rdr{"bufio4096", func(x []byte, _ *rand.Rand) io.Reader { return bufio.NewReaderSize(bytes.NewReader(x), 4096) }})
+	if len(longReaders) != 8 {
+		panic(fmt.Sprintf("c07: %d long-line readers", len(longReaders)))
+	}
+}
+
+func vbytes(label string, n int) string {
+	b := mon.DetBytes(label, n)
+	for i := range b {
+		b[i] = 33 + b[i]%94
+	}
+	return string(b)
+}
+
+var longShapes = []string{"one-long-argument", "many-short-arguments", "long-type-word"}
+
+// longStanza returns a stanza whose opening line, "-> " through "\n"
+// inclusive, is exactly lineLen bytes.
+func longStanza(shape string, lineLen, body int) *format.Stanza {
+	s := &format.Stanza{Body: mon.DetBytes(fmt.Sprintf("c07-long-body-%d", body), body)}
+	switch shape {
+	case "one-long-argument": // "-> t " + arg + "\n"
+		s.Type = "t"
+		s.Args = []string{vbytes(fmt.Sprintf("c07-long-arg-%d", lineLen), lineLen-6)}
+	case "many-short-arguments": // "-> t" + n*(" xy") + "\n", the last argument padded
+		s.Type = "t"
+		n, r := (lineLen-5)/3, (lineLen-5)%3
+		all := vbytes(fmt.Sprintf("c07-long-args-%d", lineLen), 2*n+r)
+		for i := 0; i < n; i++ {
+			if i == n-1 {
+				s.Args = append(s.Args, all[2*i:])
+			} else {
+				s.Args = append(s.Args, all[2*i:2*i+2])
+			}
+		}
+	case "long-type-word": // "-> " + type + "\n"
+		s.Type = vbytes(fmt.Sprintf("c07-long-type-%d", lineLen), lineLen-4)
+	}
+	return s
+}
+
+func lineLenOf(s *format.Stanza) int {
+	n := 3 + len(s.Type) + 1
+	for _, a := range s.Args {
+		n += 1 + len(a)
+	}
+	return n
+}
+
+func toRef(h *format.Header) *refage.Header {
+	out := &refage.Header{MAC: h.MAC}
+	for _, s := range h.Recipients {
+		out.Stanzas = append(out.Stanzas, refage.Stanza{Type: s.Type, Args: s.Args, Body: s.Body})
+	}
+	return out
+}
+
+func lenWindow(n int) string {
+	switch {
+	case n >= 4096-64 && n <= 4096+64:
+		return "4096+-64"
+	case n >= 8192-8 && n <= 8192+8:
+		return "8192+-8"
+	case n >= 65536-8 && n <= 65536+8:
+		return "65536+-8"
+	}
+	return fmt.Sprint(n)
+}
+
+type longCase struct {
+	lineLen   int
+	shape     string
+	pos, body int
+}
+
+func (o *oracle) checkLong(st *stats, c longCase) {
+	mac := mon.DetBytes("c07-long-mac", 32)
+	other := func(i int) *format.Stanza {
+		return &format.Stanza{Type: "X25519", Args: []string{refage.B64(mon.DetBytes(fmt.Sprintf("c07-long-o%d", i), 32))}, Body: mon.DetBytes(fmt.Sprintf("c07-long-ob%d", i), 32)}
+	}
+	h := &format.Header{MAC: mac, Recipients: []*format.Stanza{other(0), other(1), other(2)}}
+	long := longStanza(c.shape, c.lineLen, c.body)
+	if lineLenOf(long) != c.lineLen {
+		panic("c07: long line construction")
+	}
+	h.Recipients[c.pos] = long
+	desc := map[string]any{"opening_line_bytes": c.lineLen, "made_of": c.shape, "stanza_position": c.pos, "of_stanzas": 3, "body_bytes_after_the_line": c.body,
+		"arguments": len(long.Args), "rebuild": "longStanza(shape, lineLen, body) in harness/c07/gen.go; the input is in input_base64"}
+
+	var buf bytes.Buffer
+	var merr error
+	func() {
+		defer func() {
+			if p := recover(); p != nil {
+				o.c.add(fmt.Sprintf("panic:Header.Marshal(generated):%v", p), nil, desc, func() string {
+					return fmt.Sprintf("Marshal panicked on a well-formed header with a %d-byte opening line: %v", c.lineLen, p)
+				})
+				merr = fmt.Errorf("panic")
+			}
+		}()
+		merr = h.Marshal(&buf)
+	}()
+	if merr != nil {
+		if merr.Error() != "panic" {
+			o.c.add("marshal-error-on-wellformed-header", nil, desc, func() string {
+				return fmt.Sprintf("Marshal of a well-formed header with a %d-byte opening line failed: %v", c.lineLen, merr)
+			})
+		}
+		return
+	}
+	b := buf.Bytes()
+	variants := [][]byte{b}
+	if enc := toRef(h).Encode(); !bytes.Equal(enc, b) {
+		// counted, not alarmed on: byte-exactness of the writer is C05's business
+		st.tab("long_line_marshal_vs_reference_encoder", "differs (both parsed)")
+		variants = append(variants, enc)
+	} else {
+		st.tab("long_line_marshal_vs_reference_encoder", "identical")
+	}
+	tail := []byte(shortTail)
+	if c.body == 48 {
+		tail = longTail[:5000]
+	}
+	st.tab("long_line_window", lenWindow(c.lineLen))
+	st.tab("long_line_shape", c.shape)
+	st.tab("long_line_position_x_body", fmt.Sprintf("stanza%d/body%d", c.pos, c.body))
+	for _, hb := range variants {
+		x := append(append([]byte(nil), hb...), tail...)
+		st.inputs++
+		st.inByPart[st.part]++
+		st.refAccepted++ // well-formed by the reference encoder
+		okPlain := false
+		for ri, rd := range longReaders {
+			acc, m, err := o.parse(st, x, rd, nil)
+			st.tab("long_line_reader", rd.name)
+			ex := map[string]any{"reader": rd.name}
+			for k, v := range desc {
+				ex[k] = v
+			}
+			if !acc {
+				o.c.add("generated-header-rejected:"+errClass(err), x, ex, func() string {
+					return fmt.Sprintf("a well-formed header whose stanza %d of 3 has a %d-byte opening line (%s, body %d bytes) was marshalled to %d bytes which Parse rejects through reader %s: %s",
+						c.pos, c.lineLen, c.shape, c.body, len(hb), rd.name, quoteTrunc([]byte(err.Error()), 200))
+				})
+			} else if m != nil && !bytes.Equal(m, hb) {
+				o.c.add("generated-header-not-equal:reserialised-header", x, ex, func() string {
+					return fmt.Sprintf("Marshal -> Parse -> Marshal of a well-formed header with a %d-byte opening line gives %d bytes instead of the %d marshalled, reader %s", c.lineLen, len(m), len(hb), rd.name)
+				})
+			}
+			if ri == 0 {
+				okPlain = acc
+			}
+		}
+		// field-by-field equality once, through the plain reader
+		if got, _, err := format.Parse(bytes.NewReader(x)); err == nil && got != nil {
+			st.parses++
+			if d := headerDiff(got, h); d != "" {
+				o.c.add("generated-header-not-equal:"+d, x, desc, func() string {
+					return fmt.Sprintf("Marshal then Parse of a well-formed header with a %d-byte opening line gives a header that differs in: %s", c.lineLen, d)
+				})
+			}
+		}
+		if okPlain {
+			st.accepted++
+			st.acceptedByPart[st.part]++
+			st.distinct = append(st.distinct, x)
+		} else {
+			st.rejected++
+			st.rejectedByPart[st.part]++
+		}
+	}
+}
+
+func runLongLines(o *oracle) {
+	r := o.r
+	initLongReaders()
+	var lens []int
+	for d := -64; d <= 64; d++ {
+		lens = append(lens, 4096+d)
+	}
+	for _, c := range []int{8192, 65536} {
+		for d := -8; d <= 8; d++ {
+			lens = append(lens, c+d)
+		}
+	}
+	lens = append(lens, 100_000, 1_000_000)
+	var cases []longCase
+	// longest first, so the slow cases do not end up alone at the end
+	for i := len(lens) - 1; i >= 0; i-- {
+		for _, sh := range longShapes {
+			for pos := 0; pos < 3; pos++ {
+				for _, body := range []int{0, 48, 100} {
+					cases = append(cases, longCase{lens[i], sh, pos, body})
+				}
+			}
+		}
+	}
+	names := make([]string, 0, 8)
+	for _, rd := range longReaders {
+		names = append(names, rd.name)
+	}
+	r.Set("part_iii_long_lines", map[string]any{"opening_line_lengths": "every value in 4096+-64, 8192+-8, 65536+-8; 100000; 1000000", "lengths": len(lens),
+		"made_of": longShapes, "stanza_positions": "first, middle, last of 3", "bodies_after_the_line": []int{0, 48, 100}, "headers": len(cases), "readers": names})
+	mon.Par(len(cases), func(i int) {
+		c := cases[i]
+		r.Guard(fmt.Sprintf("long line %d %s pos=%d body=%d", c.lineLen, c.shape, c.pos, c.body), func() {
+			st := newStats("longline")
+			st.sampling = c.lineLen == 4096 && c.pos == 1 && c.body == 48
+			o.checkLong(st, c)
+			if st.sampling && st.accepted > 0 {
+				st.sample("long opening line: Marshal -> Parse equal and canonical through 8 readers", map[string]any{"opening_line_bytes": c.lineLen, "made_of": c.shape, "stanza": "middle of 3", "body_bytes": c.body})
 			}
 			st.merge(r)
 		})
